@@ -198,11 +198,11 @@ U(id="vm.op.upvalue.load", entry="h_vo_upvalue_load", defines=["-DVO_UPVALUE"], 
 U(id="vm.op.upvalue.set", entry="h_vo_upvalue_set", defines=["-DVO_UPVALUE"], assumes=UPV_ASS, undecided_clauses=common["undecided_clauses"] + UPV_UND,
   clause="JOP_SET_UPVALUE: upvalue C of environment B receives the value of slot A - on the owning fiber's stack when it is still open (another fiber's frame or the running frame itself; closed environments: see undecided clauses); a bad environment or upvalue index raises; nothing else changes; next instruction",
   mutants=[M("offset-forgotten", "env->as.fiber->data[env->offset + vindex] = stack[A];", "env->as.fiber->data[vindex] = stack[A];", "holds the source slot's value|keeps its value"),
-           M("env-check-off-by-one", "        vm_assert(func->def->environments_length > eindex, \"invalid upvalue environment\");\n        env = func->envs[eindex];\n        vm_assert(env->length > vindex, \"invalid upvalue index\");\n        vm_assert(janet_env_valid(env), \"invalid upvalue environment\");\n        if (env->offset > 0) {\n            env->as.fiber", "        vm_assert(func->def->environments_length >= eindex, \"invalid upvalue environment\");\n        env = func->envs[eindex];\n        vm_assert(env->length > vindex, \"invalid upvalue index\");\n        vm_assert(janet_env_valid(env), \"invalid upvalue environment\");\n        if (env->offset > 0) {\n            env->as.fiber", "outside the function's environments|bound|dereference")])
+           M("length-check-off-by-one", "        vm_assert(env->length > vindex, \"invalid upvalue index\");\n        vm_assert(janet_env_valid(env), \"invalid upvalue environment\");\n        if (env->offset > 0) {\n            env->as.fiber", "        vm_assert(env->length >= vindex, \"invalid upvalue index\");\n        vm_assert(janet_env_valid(env), \"invalid upvalue environment\");\n        if (env->offset > 0) {\n            env->as.fiber", "outside the environment|bound|dereference|keeps its value")])
 A_INT = "an interrupt request is the auto_suspend flag of the VM (janet_interpreter_interrupt)"
 U(id="vm.op.jump", entry="h_vo_jump", defines=["-DVO_JUMPS"], assumes=[A_INT],
   clause="JOP_JUMP: execution continues at the instruction the signed 24-bit offset away (forwards and backwards); a backward jump honours a requested interrupt by suspending the fiber at the jump; no slot changes",
-  mutants=[M("unsigned-offset", "VM_OP(JOP_JUMP)\n    vm_maybe_auto_suspend(DS <= 0);\n    pc += DS;", "VM_OP(JOP_JUMP)\n    vm_maybe_auto_suspend(DS <= 0);\n    pc += D;", "documented next instruction|bounds|pointer"),
+  mutants=[M("direction-reversed", "VM_OP(JOP_JUMP)\n    vm_maybe_auto_suspend(DS <= 0);\n    pc += DS;", "VM_OP(JOP_JUMP)\n    vm_maybe_auto_suspend(DS <= 0);\n    pc -= DS;", "documented next instruction"),
            M("no-interrupt-check", "VM_OP(JOP_JUMP)\n    vm_maybe_auto_suspend(DS <= 0);", "VM_OP(JOP_JUMP)\n    vm_maybe_auto_suspend(DS < -5);", "honours a requested interrupt")])
 JC = [("jump.if", "JOP_JUMP_IF", "the slot is truthy (anything but nil and false)", "    if (janet_truthy(stack[A])) {\n        vm_maybe_auto_suspend(ES <= 0);\n        pc += ES;\n    } else {\n        pc++;\n    }", "    if (!janet_checktype(stack[A], JANET_NIL)) {\n        vm_maybe_auto_suspend(ES <= 0);\n        pc += ES;\n    } else {\n        pc++;\n    }"),
       ("jump.ifnot", "JOP_JUMP_IF_NOT", "the slot is falsey (nil or false)", "    if (janet_truthy(stack[A])) {\n        pc++;\n    } else {\n        vm_maybe_auto_suspend(ES <= 0);\n        pc += ES;\n    }", "    if (!janet_checktype(stack[A], JANET_NIL)) {\n        pc++;\n    } else {\n        vm_maybe_auto_suspend(ES <= 0);\n        pc += ES;\n    }"),
@@ -221,9 +221,9 @@ U(id="vm.op.error", entry="h_vo_error", defines=["-DVO_ERROR"],
   mutants=[M("wrong-signal", "vm_return(JANET_SIGNAL_ERROR, stack[A]);", "vm_return(JANET_SIGNAL_USER0, stack[A]);", "error signal"),
            M("wrong-slot", "vm_return(JANET_SIGNAL_ERROR, stack[A]);", "vm_return(JANET_SIGNAL_ERROR, stack[B]);", "error value")])
 U(id="vm.op.return", entry="h_vo_return", defines=["-DVO_RETURN"], link_keep={"fiber.c": ["janet_fiber_status", "janet_fiber_popframe"], "wrap.c": WRAP},
-  assumes=["the frame has no captured environment (detaching is the contract of janet_fiber_popframe, C05 units)", "only the return from the frame the interpreter was entered with is covered; the return into a calling Janet frame is covered by the C05 call/return units"],
+  assumes=["the frame has no captured environment (detaching is the contract of janet_fiber_popframe, C05 units)", "this unit covers the return from the frame the interpreter was entered with; the return into a calling Janet frame is vm.op.return.caller"],
   clause="JOP_RETURN / JOP_RETURN_NIL from the entrance frame: run_vm returns JANET_SIGNAL_OK with the value of slot D (24-bit register) resp. nil, unchanged, and the frame is popped; no slot changes",
-  mutants=[M("returns-slot-A", "    VM_OP(JOP_RETURN) {\n        Janet retval = stack[D];", "    VM_OP(JOP_RETURN) {\n        Janet retval = stack[A];", "value returned"),
+  mutants=[M("returns-wrong-slot", "    VM_OP(JOP_RETURN) {\n        Janet retval = stack[D];", "    VM_OP(JOP_RETURN) {\n        Janet retval = stack[E];", "value returned"),
            M("nil-return-not-nil", "    VM_OP(JOP_RETURN_NIL) {\n        Janet retval = janet_wrap_nil();", "    VM_OP(JOP_RETURN_NIL) {\n        Janet retval = stack[0];", "value returned")])
 
 
@@ -232,7 +232,7 @@ A_FIBER = "fiber.c's push functions append their arguments in order at the end o
 PUSH_STUBS = ["janet_fiber_push:vo_push_stub", "janet_fiber_push2:vo_push2_stub", "janet_fiber_push3:vo_push3_stub", "janet_fiber_pushn:vo_pushn_stub", "janet_indexed_view:vo_indexed_view_stub"]
 REFRESH = "    stack = fiber->data + fiber->frame;\n    vm_checkgc_pcnext();\n\n    VM_OP(%s)"
 for n, op, nxt, args in [(1, "JOP_PUSH", "JOP_PUSH_2", "janet_fiber_push(fiber, stack[D]);"), (2, "JOP_PUSH_2", "JOP_PUSH_3", "janet_fiber_push2(fiber, stack[A], stack[E]);"), (3, "JOP_PUSH_3", "JOP_PUSH_ARRAY", "janet_fiber_push3(fiber, stack[A], stack[B], stack[C]);")]:
-    swapped = {1: "janet_fiber_push(fiber, stack[A]);", 2: "janet_fiber_push2(fiber, stack[E], stack[A]);", 3: "janet_fiber_push3(fiber, stack[A], stack[C], stack[B]);"}[n]
+    swapped = {1: "janet_fiber_push(fiber, stack[E]);", 2: "janet_fiber_push2(fiber, stack[E], stack[A]);", 3: "janet_fiber_push3(fiber, stack[A], stack[C], stack[B]);"}[n]
     U(id="vm.op.push%d" % n, entry="h_vo_push", defines=["-DVO_PUSH=%d" % n], replace_calls=STUBS + PUSH_STUBS, assumes=[A_FIBER],
       clause="%s: the operand values are appended to the fiber's argument area in operand order, unchanged (one push of width %d); the interpreter goes on with the stack block fiber.c left (also when it was moved); no slot changes; next instruction" % (op, n),
       mutants=[M("stack-not-refreshed", "    %s\n" % args + REFRESH % nxt, "    %s\n" % args + (REFRESH % nxt).replace("    stack = fiber->data + fiber->frame;\n", ""), "live stack block"),
@@ -251,7 +251,7 @@ MK = [(1, "array", "JOP_MAKE_ARRAY", "a new array of the arguments in order", [M
       (2, "tuple", "JOP_MAKE_TUPLE", "a new (parenthesised) tuple of the arguments in order", [M("always-bracket", "        if (opcode == JOP_MAKE_BRACKET_TUPLE)\n            janet_tuple_flag(tup)", "        if (opcode != JOP_NOOP)\n            janet_tuple_flag(tup)", "bracket")]),
       (3, "btuple", "JOP_MAKE_BRACKET_TUPLE", "a new bracket tuple of the arguments in order", [M("never-bracket", "        if (opcode == JOP_MAKE_BRACKET_TUPLE)\n            janet_tuple_flag(tup)", "        if (opcode == JOP_MAKE_TUPLE)\n            janet_tuple_flag(tup)", "bracket")]),
       (4, "table", "JOP_MAKE_TABLE", "a new table with the pairs (argument 2i, argument 2i+1) put in order; an odd argument count raises", [M("key-value-swapped", "janet_table_put(table, mem[i], mem[i + 1]);", "janet_table_put(table, mem[i + 1], mem[i]);", "key, value"),
-                                                                      M("odd-check-dropped", "        JanetTable *table = janet_table(count / 2);", "        count &= ~1;\n        JanetTable *table = janet_table(count / 2);", "odd number|bounds|dereference") ]),
+                                                                      M("odd-check-dropped", "        if (count & 1) {\n            vm_commit();\n            janet_panicf(\"expected even number of arguments to table constructor", "        if (0) {\n            vm_commit();\n            janet_panicf(\"expected even number of arguments to table constructor", "odd number|bounds|dereference")]),
       (5, "struct", "JOP_MAKE_STRUCT", "a new struct with the pairs (argument 2i, argument 2i+1) put in order; an odd argument count raises", [M("last-pair-skipped", "        for (int32_t i = 0; i < count; i += 2)\n            janet_struct_put(st, mem[i], mem[i + 1]);", "        for (int32_t i = 2; i < count; i += 2)\n            janet_struct_put(st, mem[i], mem[i + 1]);", "per pair|argument order")]),
       (6, "string", "JOP_MAKE_STRING", "a new string: the text of every argument, appended in order", [M("reverse-order", "        for (int32_t i = 0; i < count; i++)\n            janet_to_string_b(&buffer, mem[i]);", "        for (int32_t i = 0; i < count; i++)\n            janet_to_string_b(&buffer, mem[count - 1 - i]);", "argument order")]),
       (7, "buffer", "JOP_MAKE_BUFFER", "a new buffer: the text of every argument, appended in order", [M("first-skipped", "        for (int32_t i = 0; i < count; i++)\n            janet_to_string_b(buffer, mem[i]);", "        for (int32_t i = 1; i < count; i++)\n            janet_to_string_b(buffer, mem[i]);", "appended once|argument order")])]
@@ -260,6 +260,48 @@ for n, key, op, doc, muts in MK:
       bound=BOUND + "; the argument area holds 0..4 values (symbolic count)",
       clause="%s: the destination slot (24-bit register D) receives %s, taken from the fiber's argument area data[stackstart..stacktop); the argument area is empty afterwards; no other slot changes; next instruction" % (op, doc),
       mutants=muts)
+
+
+U(id="vm.op.return.caller", entry="h_vo_return_caller", defines=["-DVO_RETURN_CALLER"], link_keep={"fiber.c": ["janet_fiber_status", "janet_fiber_popframe"], "wrap.c": WRAP},
+  assumes=["neither frame has a captured environment (detaching is the contract of janet_fiber_popframe, C05 units)"],
+  bound=BOUND + "; two frames (caller and callee) of 4 slots each; the caller's call instruction is a concrete word whose destination register is enumerated",
+  clause="JOP_RETURN / JOP_RETURN_NIL into a calling Janet frame: the callee's frame is popped, the value of slot D (resp. nil) arrives unchanged in the destination register of the caller's call instruction, no other caller slot changes, and the caller continues after its call instruction",
+  mutants=[M("value-to-slot-0", "        if (entrance_frame) vm_return_no_restore(JANET_SIGNAL_OK, retval);\n        vm_restore();\n        stack[A] = retval;\n        vm_checkgc_pcnext();\n    }\n\n    VM_OP(JOP_RETURN_NIL)", "        if (entrance_frame) vm_return_no_restore(JANET_SIGNAL_OK, retval);\n        vm_restore();\n        stack[0] = retval;\n        vm_checkgc_pcnext();\n    }\n\n    VM_OP(JOP_RETURN_NIL)", "destination register|other slot"),
+           M("entrance-test-inverted", "    VM_OP(JOP_RETURN_NIL) {\n        Janet retval = janet_wrap_nil();\n        int entrance_frame = janet_stack_frame(stack)->flags & JANET_STACKFRAME_ENTRANCE;", "    VM_OP(JOP_RETURN_NIL) {\n        Janet retval = janet_wrap_nil();\n        int entrance_frame = !(janet_stack_frame(stack)->flags & JANET_STACKFRAME_ENTRANCE);", "does not leave the interpreter")])
+U(id="vm.op.closure", entry="h_vo_closure", defines=["-DVO_CLOSURE"], replace_calls=STUBS + ["janet_gcalloc:vo_gcalloc_stub"],
+  assumes=["janet_gcalloc returns a fresh object of the requested kind and size (C01 units)"],
+  bound=BOUND + "; the running function has two environments and two nested definitions; the nested definition names 0..2 environments (enumerated: own frame / inherited, with and without an already captured frame)",
+  clause="JOP_CLOSURE: the destination slot receives a new function for the E-th nested definition; each of its environments is the one the definition names - the running frame's own environment (created on the first capture with this fiber, this frame and all its slots, and reused by later closures of the same frame) or one of the running function's environments; a bad definition index raises; nothing else changes; next instruction",
+  mutants=[M("always-new-env", "                    if (!frame->env) {\n                        /* Lazy capture of current stack frame */", "                    if (1) {\n                        /* Lazy capture of current stack frame */", "created on first capture and reused"),
+           M("inherit-off-by-one", "                    fn->envs[i] = func->envs[inherit];", "                    fn->envs[i] = func->envs[inherit > 0 ? inherit - 1 : inherit];", "the one its definition names"),
+           M("env-length-wrong", "                        env->length = func->def->slotcount;", "                        env->length = func->def->arity;", "all its slots")])
+
+# ---------------------------------------------------------------- obligations that FAIL on the pinned tree (candidate findings)
+# Generated with disabled_reason so that they do not turn every C15 run red; run one with  VO_FINDINGS=1 python3 gen/gen_C15_vm.py
+# and then  bin/vcheck C15 --unit vm.op.bnot.range --no-evidence -v
+FINDINGS_ON = bool(os.environ.get("VO_FINDINGS"))
+def F(reason, **k):
+    if not FINDINGS_ON:
+        k["disabled_reason"] = reason
+    U(**k)
+F("FAILS on the real code (candidate defect, low severity): JOP_BNOT converts any number with (int32_t) and never range-checks, unlike band/bor/bxor/blshift/brshift which raise "
+  "'value ... out of range for 32-bit signed integers'. Failing obligation: vo_bnot.assertion.2 'bnot of a number that is not a 32-bit signed integer raises (as band, bor, bxor do)'. "
+  "Reproducer on /repo/_build/janet: (bnot 1e10) => 2147483647, (bnot 0.5) => -1, (bnot math/nan) => 2147483647 (out-of-range double->int32 conversion, undefined behaviour in C), while (band 1e10 1) and (band 0.5 1) raise. "
+  "Both the inlined and the called bnot use the same opcode, so C15's equality holds; the documented meaning 'bit-wise inverse of integer x' does not.",
+  id="vm.op.bnot.range", entry="h_vo_bnot", defines=["-DVO_BNOT", "-DVO_BNOT_RANGE"], cbmc=FP, assumes=[A_GENERIC],
+  clause="JOP_BNOT: a number operand that is not a 32-bit signed integer raises, as for every other bitwise operator (each x must be an integer)",
+  mutants=[M("negate-instead-of-invert", "janet_wrap_integer(~janet_unwrap_integer(op))", "janet_wrap_integer(-janet_unwrap_integer(op))", "bit-wise inverse")])
+for key, dfn, op in [("shl", "VO_SHL", "JOP_SHIFT_LEFT"), ("shr", "VO_SHR", "JOP_SHIFT_RIGHT"), ("shru", "VO_SHRU", "JOP_SHIFT_RIGHT_UNSIGNED")]:
+    jn = {"shl": "blshift", "shr": "brshift", "shru": "brushift"}[key]
+    for imm in (False, True):
+        F("FAILS on the real code (candidate defect): the shift distance is any 32-bit integer (register form) resp. any signed byte (immediate form) and is handed to the C shift operator unchecked; "
+          "a distance < 0 or >= 32 is undefined behaviour in C and gives CPU-dependent results (x86 masks the distance to 5 bits, ARM does not). Failing obligations: run_vm.undefined-shift.* 'shift distance is negative' / 'shift distance too large' in the body of %s%s. "
+          "Reproducer on /repo/_build/janet (x86-64): (%s 1 32) => 1 and (%s 1 33) => 2 (the documented 'x bit shifted left by 32' is 0 modulo 2^32 or 4294967296 as a number), (blshift 1 -1) => -2147483648, (brshift -8 33) => -4; "
+          "the same expressions give other values on CPUs that do not mask the distance, and the compiler may fold them differently." % (op, "_IMMEDIATE" if imm else "", jn, jn),
+          id="vm.op.%s%s.distance" % (key, ".imm" if imm else ""), entry="h_vo_bitop_imm" if imm else "h_vo_bitop", defines=["-D" + dfn], cbmc=FP,
+          checks=["undefined-shift-check"], only="shift distance|REACH", assumes=[A_GENERIC],
+          clause="%s%s: every shift the instruction executes has a distance in 0..31 (anything else is undefined in C: the result would depend on CPU and compiler); other distances raise or are given a defined meaning" % (op, "_IMMEDIATE" if imm else ""),
+          mutants=[M("rhs-range-check-dropped", RHS_DROP["find"], "", "shift distance")])
 
 json.dump({"units": units}, open(os.path.join(V, 'units', 'C15_vm.json'), 'w'), indent=1)
 print('%d units' % len(units))
